@@ -82,8 +82,10 @@ def make_callable(ns, world, knobs, op):
         truth_file = world.path(op["targets"][op["truth"]]["files"][0])
         return lambda: ns.conformance.ground_truth(nspace, truth_file)
     if kind == "sync_properties":
+        # the two modules may be reached through symbolic links, too (other spellings are `sync`'s subject)
+        sp_path = (lambda rel: _given_path(world, knobs, rel)) if knobs.get("path_style") in ("symlink_dir", "symlink_file") else world.path
         if op.get("via", "cli") == "cli":
-            argv = ["sync_properties", "--input-filename", world.path(op["input"]), "--output-filename", world.path(op["output"])]
+            argv = ["sync_properties", "--input-filename", sp_path(op["input"]), "--output-filename", sp_path(op["output"])]
             for a, b in op["pairs"]:
                 argv += ["--input-param", a, "--output-param", b]
             if op.get("eval"):
@@ -92,8 +94,8 @@ def make_callable(ns, world, knobs, op):
                 argv += ["--output-param-wrap", op["wrap"]]
             return lambda: ns.main.main(argv)
         return lambda: ns.sp.sync_properties(
-            input_eval=bool(op.get("eval")), input_filename=world.path(op["input"]),
-            input_params=[a for a, _ in op["pairs"]], output_filename=world.path(op["output"]),
+            input_eval=bool(op.get("eval")), input_filename=sp_path(op["input"]),
+            input_params=[a for a, _ in op["pairs"]], output_filename=sp_path(op["output"]),
             output_params=[b for _, b in op["pairs"]], output_param_wrap=op.get("wrap"))
     if kind == "gen":
         argv = ["gen", "--name-tpl", op["name_tpl"], "--input-mapping", op["mapping"], "--type", op["type"],
